@@ -246,6 +246,27 @@ func (rn *Runner) Run(h *History, faults map[int]string) *Trace {
 			}
 			var ies []*IE
 			if op.Takeover > 0 {
+				// a take-over renames the association the addressed session hangs on. Which of that association's
+				// other sessions move with it is not fixed by the statement, so the Node ID IE is only sent when the
+				// association owns nothing else - judged on the server's state now (stale handles and faults make
+				// the generator's own book-keeping unreliable here)
+				owned := 0
+				if seid >= 1 && int(seid) <= len(st.Pre.Slots) && st.Pre.Slots[seid-1] != nil {
+					nid := st.Pre.Slots[seid-1].NodeID
+					for _, x := range st.Pre.Slots {
+						if x != nil && x.NodeID == nid {
+							owned++
+						}
+					}
+				}
+				if owned > 1 {
+					cp := *op
+					cp.Takeover = 0
+					op = &cp
+					st.Op = op
+				}
+			}
+			if op.Takeover > 0 {
 				ies = append(ies, nodeIP(op.Takeover-1))
 			}
 			for _, r := range op.Create {
